@@ -285,6 +285,8 @@ class Clip:
         self.snap_dist = 0.0  # largest such distance
         # a polygon that is cut (vertices strictly on both sides) also has such a vertex: thin region of slice_faces_plane
         self.snapped_cut = False
+        # a vertex strictly off the plane but closer than 100 tol.merge: features below the documented resolution
+        self.gray = False
         self.stats = Counter()
 
     def cut(self, origin, normal):
@@ -296,6 +298,8 @@ class Clip:
             a = np.abs(d)
             if ((a > THR * 0.9) & (a < THR * 1.1)).any():
                 self.ambiguous = True
+            if ((a >= THR * 1.1) & (a <= 100 * THR * float(np.linalg.norm(normal)))).any():
+                self.gray = True
             s = np.zeros(len(P), dtype=np.int8)
             s[d < -THR] = -1
             s[d > THR] = 1
